@@ -28,7 +28,7 @@ STUB = ["random.Random (SimRandom)", "time.perf_counter (SimClock)"]
 ASSUMPTIONS = ["customer ids are 1..n in list order (the module indexes customers by id)", "finite coordinates and demands"]
 TIERS = {
     "quick": {"runs": 48000, "block": 1000, "budget_s": 75},
-    "thorough": {"runs": 3000000, "block": 2000, "budget_s": 900},
+    "thorough": {"runs": 10000000, "block": 2000, "budget_s": 900},
 }
 RNG_MODULES = ["solvor.vrp", "solvor.lns", "solvor.job_shop"]
 INF = float("inf")
